@@ -378,7 +378,10 @@ class Run:
                 cov['selftest'] = st
                 print('selftest %s: %d/%d mutants flagged, %d/%d refactors silent, %d skipped' % (self.prop, st['mutants_flagged'], st['mutants'], st['refactors_silent'], st['refactors'], st['skipped']))
                 for g_ in st['gaps']:
-                    print('  SENSITIVITY-GAP (checker): mutant %s not flagged as expected: %s' % (g_['id'], g_))
+                    if g_.get('documented'):
+                        print('  documented gap (not claimed): mutant %s is not flagged - %s' % (g_['id'], g_['documented']))
+                    else:
+                        print('  SENSITIVITY-GAP (checker): mutant %s not flagged as expected: %s' % (g_['id'], g_))
                 for g_ in st['false_alarms']:
                     print('  FALSE-ALARM (checker): refactor %s flagged: %s' % (g_['id'], g_))
         ev = {
